@@ -245,7 +245,10 @@ theorem ansW_imp_tok (l : List Micro) (hwf : wfW l = true) (h : anyAnsW l = true
   | nil => simp at h
   | cons x xs ih =>
     simp only [wfW, Bool.and_eq_true] at hwf
-    cases x <;> simp_all [Micro.ansW, Micro.tokW, Micro.wAllowed] <;> (try omega)
+    cases x
+    case setProg p =>
+      cases hp : p.isProcessing <;> simp_all [Micro.ansW, Micro.tokW, Micro.wAllowed]
+    all_goals (simp_all [Micro.ansW, Micro.tokW, Micro.wAllowed] <;> (try omega))
 
 /-- the request in progress has been announced (`Processing` written) and its own answer is still
 to be written: by the worker (Error, or it still has to hand off), by the main loop (Done / Error
@@ -277,14 +280,14 @@ def Good (s : St) : Prop := s.exited = true ∨ Inv s
 
 def wPathOk (p : List Eff) : Bool :=
   let w := expand p
-  wfW w && wsum Micro.tokW w == 1 && wsum Micro.sup w == 1
+  wfW w && wsum Micro.tokW w == 1 && wsum Micro.sup w == 1 && hasProc w
 
 def hPathOk (p : HPath) : Bool :=
   let m := expand p.effs
   wfM m && decide (wsum Micro.relM m ≤ 1) && wsum Micro.sigTok m == 0 &&
   (if p.reloading then anyRelM m && wsum Micro.sup m == 1 && !firstRelIsStore m
    else !anyRelM m && wsum Micro.sup m == 0) &&
-  (!p.reloading || anyAnsM m)
+  (if p.reloading then anyAnsM m else !anyAnsM m)
 
 theorem workerPaths_ok : workerPaths.all wPathOk = true := by decide
 
@@ -374,6 +377,7 @@ theorem num_stepM {s : St} (h : Inv s) {x : Micro} {rest : List Micro} (hm : s.m
   case finishFailHead => marith s rest
   case finishSucc => marith s rest
 
+set_option maxHeartbeats 1000000 in
 theorem rest_stepW {s : St} (h : Inv s) {x : Micro} {rest : List Micro} (hw : s.w = x :: rest)
     (hx : (afterW s x rest).exited = false) :
     let s' := afterW s x rest
@@ -401,12 +405,26 @@ theorem rest_stepW {s : St} (h : Inv s) {x : Micro} {rest : List Micro} (hw : s.
     intro h; cases hf : firstRelIsStore s.m
     · rfl
     · rw [hfs hf] at h; cases h
+  have keyM : 1 ≤ wsum Micro.tokW (x :: rest) → anyAnsM s.m = false := by
+    intro h1
+    cases hh : anyAnsM s.m
+    · rfl
+    · have h2 := ansM_imp_relM s.m wfm hh
+      rw [(key h1).2] at h2; cases h2
+  have hIn : allInert rest = true → anyAnsW rest = false ∧ hasProc rest = false := fun h =>
+    ⟨(inert_facts rest h).1, (inert_facts rest h).2.1⟩
+  have hAT : anyAnsW (x :: rest) = true → 1 ≤ wsum Micro.tokW (x :: rest) := ansW_imp_tok _ wfw
   cases x <;> simp only [wfW, Micro.wAllowed, Bool.false_and, Bool.and_false, Bool.false_eq_true] at wfw
   all_goals simp only [afterW, exec] at hx ⊢
   case fatal => simp at hx
   case setProg p =>
     cases p <;>
-    (simp only [Bool.and_eq_true, decide_eq_true_eq, Bool.true_and, Bool.not_eq_true', Bool.or_eq_true] at wfw
+    (simp only [Bool.and_eq_true, decide_eq_true_eq, Bool.true_and, Bool.not_eq_true', Bool.or_eq_true,
+       Prog.isProcessing, Prog.isBusy, Bool.false_eq_true, if_false, if_true, Bool.not_false, Bool.not_true] at wfw
+     have k1 : 1 ≤ wsum Micro.tokW rest → s.reloading = false ∧ anyRelM s.m = false := fun h =>
+       key (by simp only [wsum_cons]; omega)
+     have k2 : 1 ≤ wsum Micro.tokW rest → anyAnsM s.m = false := fun h =>
+       keyM (by simp only [wsum_cons]; omega)
      refine ⟨?_, ?_, ?_, ?_, ?_, ?_, ?_, ?_, ?_, ?_⟩ <;>
      simp_all [Micro.ansW, Micro.ansM, Prog.isProcessing, Micro.inert, Micro.isProc, Prog.isAnswer, answerPending, wfW, Micro.wAllowed, Micro.isReader, Micro.clrW, Micro.tokW, Micro.sup, Prog.isBusy])
   case readProg =>
@@ -420,6 +438,8 @@ theorem rest_stepW {s : St} (h : Inv s) {x : Micro} {rest : List Micro} (hw : s.
      simp_all [Micro.ansW, Micro.ansM, Prog.isProcessing, Micro.inert, Micro.isProc, Prog.isAnswer, answerPending, wfW, Micro.wAllowed, Micro.isReader, Micro.clrW, Micro.tokW, Micro.sup, Prog.isBusy])
   case beginHandoff =>
     have k := key (by simp [Micro.tokW])
+    have k2 := keyM (by simp [Micro.tokW])
+    have hi := hIn (by simp only [Bool.and_eq_true, Bool.true_and] at wfw; exact wfw.2)
     refine ⟨?_, ?_, ?_, ?_, ?_, ?_, ?_, ?_, ?_, ?_⟩ <;>
      simp_all [Micro.ansW, Micro.ansM, Prog.isProcessing, Micro.inert, Micro.isProc, Prog.isAnswer, answerPending, wfW, Micro.wAllowed, Micro.isReader, Micro.clrW, Micro.tokW, Micro.sup]
   all_goals (
@@ -427,6 +447,7 @@ theorem rest_stepW {s : St} (h : Inv s) {x : Micro} {rest : List Micro} (hw : s.
     refine ⟨?_, ?_, ?_, ?_, ?_, ?_, ?_, ?_, ?_, ?_⟩ <;>
     simp_all [Micro.ansW, Micro.ansM, Prog.isProcessing, Micro.inert, Micro.isProc, Prog.isAnswer, answerPending, wfW, Micro.wAllowed, Micro.isReader, Micro.clrW, Micro.tokW, Micro.sup, Prog.isBusy])
 
+set_option maxHeartbeats 1000000 in
 theorem rest_stepM {s : St} (h : Inv s) {x : Micro} {rest : List Micro} (hm : s.m = x :: rest)
     (hx : (afterM s x rest).exited = false) :
     let s' := afterM s x rest
@@ -456,6 +477,12 @@ theorem rest_stepM {s : St} (h : Inv s) {x : Micro} {rest : List Micro} (hm : s.
     apply anyRelM_false_of_relM_zero
     simp only [wsum_cons, Micro.relM, h1, if_true] at rel1
     omega
+  have hWin : (s.reloading = true ∨ anyRelM (x :: rest) = true) → anyAnsW s.w = false ∧ hasProc s.w = false := by
+    intro h
+    have t0 : wsum Micro.tokW s.w = 0 := by
+      rcases h with h | h <;> simp only [h, Bool.true_or, Bool.or_true, Bool.toNat_true] at tok <;> omega
+    exact ⟨(inert_facts _ (tail t0)).1, (inert_facts _ (tail t0)).2.1⟩
+  have hAR : anyAnsM (x :: rest) = true → anyRelM (x :: rest) = true := ansM_imp_relM _ wfm
   cases x <;> simp only [wfM, Micro.mAllowed, Bool.false_and, Bool.and_false, Bool.false_eq_true] at wfm
   all_goals simp only [afterM, exec] at hx ⊢
   case exitHold => simp at hx
@@ -678,19 +705,25 @@ theorem good_step {s s' : St} (h : Good s) (a : Act) (hs : step s a = some s') :
           simp only [Option.some.injEq] at hs; subst hs; right
           have hok := hPath_of_get hp
           simp only [hPathOk, Bool.and_eq_true, decide_eq_true_eq, beq_iff_eq] at hok
-          simp only [Bool.or_eq_true, Bool.not_eq_true'] at hok
           obtain ⟨⟨⟨⟨h1, h2⟩, h3⟩, h4⟩, h4b⟩ := hok
           rw [hm] at tok sup store note busy act proc
-          cases hrl : s.reloading <;> rw [hr', hrl] at h4 <;>
-            simp only [Bool.false_eq_true, if_false, if_true, Bool.and_eq_true, Bool.not_eq_true', beq_iff_eq] at h4
+          simp only [answerPending, hm, anyAnsM_nil, anyRelM_nil, Bool.or_false, Bool.not_false, Bool.and_true] at own
+          cases hrl : s.reloading <;> rw [hr', hrl] at h4 h4b <;>
+            simp only [Bool.false_eq_true, if_false, if_true, Bool.and_eq_true, Bool.not_eq_true', beq_iff_eq] at h4 h4b
           · obtain ⟨h5, h6⟩ := h4
-            refine ⟨?_, ?_, ?_, ?_, ?_, ?_, ?_, ?_, ?_, ?_, ?_, ?_⟩ <;>
-              simp_all [Micro.ansW, Micro.ansM, Prog.isProcessing, Micro.inert, Micro.isProc, Prog.isAnswer, answerPending, tokens, owed] <;>
-              (intro hb; rcases busy hb with h | h | h <;> simp [h])
+            refine ⟨?_, ?_, ?_, ?_, ?_, ?_, ?_, ?_, ?_, ?_, ?_, ?_⟩
+            rotate_right
+            · intro ha; apply own
+              simp only [hrl, Bool.or_false]
+              simpa [answerPending, h4b] using ha
+            all_goals (simp_all [Micro.ansW, Micro.ansM, Prog.isProcessing, Micro.inert, Micro.isProc, Prog.isAnswer, tokens, owed] <;>
+              (intro hb; rcases busy hb with h | h | h <;> simp [h]))
           · obtain ⟨⟨h5, h6⟩, h7⟩ := h4
-            refine ⟨?_, ?_, ?_, ?_, ?_, ?_, ?_, ?_, ?_, ?_, ?_, ?_⟩ <;>
-              simp_all [Micro.ansW, Micro.ansM, Prog.isProcessing, Micro.inert, Micro.isProc, Prog.isAnswer, answerPending, tokens, owed] <;>
-              (intro hb; rcases busy hb with h | h | h <;> simp [h])
+            refine ⟨?_, ?_, ?_, ?_, ?_, ?_, ?_, ?_, ?_, ?_, ?_, ?_⟩
+            rotate_right
+            · intro _; apply own; simp [hrl]
+            all_goals (simp_all [Micro.ansW, Micro.ansM, Prog.isProcessing, Micro.inert, Micro.isProc, Prog.isAnswer, tokens, owed] <;>
+              (intro hb; rcases busy hb with h | h | h <;> simp [h]))
         · cases hs
       · cases hs
     · cases hs
@@ -703,10 +736,16 @@ theorem good_step {s s' : St} (h : Good s) (a : Act) (hs : step s a = some s') :
         simp only [Option.some.injEq] at hs; subst hs; right
         have hok := wPath_of_get hp
         simp only [wPathOk, Bool.and_eq_true, beq_iff_eq] at hok
-        obtain ⟨⟨h1, h2⟩, h3⟩ := hok
+        obtain ⟨⟨⟨h1, h2⟩, h3⟩, h4⟩ := hok
+        have hown : answerPending { s with queue := q, w := expand p, wAbort := s.qAbort } = true →
+            s.progress.isAnswer = false := by
+          intro ha; apply own
+          simp only [answerPending, hw, h4, anyAnsW_nil, hasProc_nil, Bool.not_true, Bool.and_false, Bool.false_and,
+            Bool.false_or] at ha ⊢
+          exact ha
         rw [hw] at tok sup busy act proc tail
         rw [hq] at tok sup
-        refine ⟨?_, ?_, ?_, ?_, ?_, ?_, ?_, ?_, ?_, ?_, ?_, ?_⟩
+        refine ⟨?_, ?_, ?_, ?_, ?_, ?_, ?_, ?_, ?_, ?_, ?_, hown⟩
         · numtac s
         · numtac s
         all_goals (simp_all <;> (intro hb; rcases busy hb with h | h | h <;> simp [h]))
@@ -715,7 +754,7 @@ theorem good_step {s s' : St} (h : Good s) (a : Act) (hs : step s a = some s') :
 
 theorem good_init : Good init := by
   right
-  refine ⟨?_, ?_, ?_, ?_, ?_, ?_, ?_, ?_, ?_, ?_, ?_, ?_⟩ <;> simp [init, tokens, owed, wfW, wfM, firstRelIsStore, Prog.isBusy, Prog.isProcessing]
+  refine ⟨?_, ?_, ?_, ?_, ?_, ?_, ?_, ?_, ?_, ?_, ?_, ?_⟩ <;> simp [init, tokens, owed, wfW, wfM, firstRelIsStore, Prog.isBusy, Prog.isProcessing, answerPending, Prog.isAnswer]
 
 theorem reachable_good {s : St} (h : Reachable s) : Good s := by
   induction h with
